@@ -121,8 +121,8 @@ fn c02_o1d_from_dht_message_max_salt() {
 }
 
 //@ ob: C02.O1e
-//@ tier: thorough
-//@ cap: 900
+//@ tier: quick
+//@ cap: 800
 //@ also: C03 C05
 //@ desc: malformed key lengths are rejected without panic and without any verification: key slice length in {0, 31, 33}
 //@ bounds: key lengths 0, 31, 33 (one concrete call each), symbolic 1-byte value, well-formed 64-byte signature; unwind 34
